@@ -384,6 +384,8 @@ class Evaluator:
                     return base_len.add(b)
                 return b
             return bound(a.args[2], base_len).sub(bound(a.args[1], Rat.const(0)))
+        if a.name in ("np.argsort", "np.sort", "np.cumsum", "np.flip", "np.negative", "np.absolute", "np.fabs", "np.square") and len(a.args) >= 1 and a.args[0].is_array():
+            return self.length_of(a.args[0])                            # one value per input value
         if a.name == "np.diff" and len(a.args) == 1:
             return self.length_of(a.args[0]).sub(Rat.const(1))       # first differences: one value fewer
         if a.name == "rslice":
